@@ -1,6 +1,7 @@
 """Shared world for C03/C04/C05: one Parameterized class (a, b generic; n bounded Number with a
 slot watcher target; e Event), one instance, recording callbacks, and the glue that runs the
 reference dispatcher (models/dispatch.py) over the trace the callbacks recorded."""
+import collections
 import datetime
 import fractions
 
@@ -33,11 +34,12 @@ def make_vals():
         (0, 10), (0, 5), (1, 5),      # bounds values for the slot watcher (22, 23, 24)
         {'a': 1, 'b': 2}, {'a': 1, 'c': 2}, [{'a': 1, 'b': 2}], [{'a': 1, 'c': 2}], {'b': 2, 'a': 1},   # 25..29
         [1, [2, 3]], [1, [2, 4]], (1, 2.0), b'a', frozenset({1}), {1},                               # 30..35
+        collections.OrderedDict([('a', 1), ('b', 2)]), collections.OrderedDict([('b', 2), ('a', 1)]),  # 36, 37: equal items, different order (not equal)
     ]
 
 
 B0, B1, B2 = 22, 23, 24
-EQ_DOMAIN = list(range(0, 22)) + list(range(25, 36))
+EQ_DOMAIN = list(range(0, 22)) + list(range(25, 38))
 
 
 class Boom(Exception):
@@ -154,6 +156,10 @@ class World:
             setattr(self.cls, op[1], V_[op[2]])
         elif k == 'sset':
             setattr(self.sub, op[1], V_[op[2]])
+        elif k == 'touch':
+            o.param[op[1]]          # creates the per-instance Parameter (a copy of the class's, default included)
+        elif k == 'csetq':
+            setattr(self.cls, op[1], V_[op[2]])
         elif k == 'slot':
             target = o if op[4:] != ['cls'] else self.cls
             setattr(target.param[op[1]], op[2], V_[op[3]])
@@ -187,8 +193,15 @@ class World:
         k = op[0]
         if k == 'set':
             m.op_set(op[1], V_[op[2]])
+            m.own.add(op[1])
         elif k == 'cset':
             m.op_set(op[1], V_[op[2]], target='cls')
+        elif k == 'touch':
+            pass
+        elif k == 'csetq':
+            # a class-level assignment: instance watchers are not concerned; an instance that never set the parameter follows the class
+            if op[1] not in m.own:
+                m.vals[op[1]] = V_[op[2]]
         elif k == 'sset':
             # the subclass's own values: only watchers registered on the subclass are concerned
             m.vals, m.subvals = m.subvals, m.vals
